@@ -28,6 +28,8 @@ def main():
         meta = json.load(open(mp))
         if "cross" in meta and not want:
             continue
+        if meta.get("obsolete"):
+            continue
         sh("git -C /repo worktree remove --force %s" % WT, "/")
         rc, out = sh("git -C /repo worktree add -q %s HEAD && git -C %s apply %s" % (WT, WT, os.path.join(ROOT, "seeded", name, "patch.diff")), "/")
         if rc != 0:
